@@ -47,11 +47,11 @@ CHECKS = {
     cat="proof",
     text="Theorems over R for every program with positive rate/step/total time and end <= hold temperatures <= start (props/C05.v): "
          "S1 exactly ceil(t_tot/dt)+1 samples, S2 starts at start, S3+S4 never rises and falls at most rate*dt per step, S5 within [end,start], "
-         "S8 independent of the listed order for pairwise distinct hold temperatures; S6/S7 proved per segment only (plateau and ramp sample "
-         "counts within one of duration/dt, ramp samples on the programmed line) - their composition over segments is checked by the oracle. "
+         "S8 independent of the listed order for pairwise distinct hold temperatures; S6/S7 per segment (plateau and ramp sample "
+         "counts within one of duration/dt, ramp samples on the programmed line) and composed over the program (after k ramp/hold pairs the sample count is within k resp. 2k of the continuous time / dt); the temperature at an arbitrary index against the continuous program is checked by the oracle. "
          "The same generic Gallina term, instantiated at binary64, is compared sample by sample with tempProfile(dt) on thousands of random programs.",
     ref="6 C05", technique="Rocq proof over R (archimed-based ceil, chain invariant by induction over segments, permutation-invariant insertion sort) + float-instance correspondence by vm_compute",
-    note=TB % "c05" + "binary64 rounding is not analysed (generic term shared by the R and float instances); S6/S7 composition and the order dependence for equal hold temperatures (known finding) are outside the theorems."),
+    note=TB % "c05" + "binary64 rounding is not analysed (generic term shared by the R and float instances); the order dependence for equal hold temperatures (known finding) is outside the theorems."),
  "C06": dict(
     cat="proof",
     text="Theorems over R (props/C06.v): liquid step is a convex combination when the stability number <= 1; the nucleation jump (direct: always; indirect: "
